@@ -102,8 +102,10 @@ def prove(prop_file, timeout):
     return res
 
 
-def build_harness(cmd, timeout=1500):
+def build_harness(cmd, timeout=1500, race=False):
     rc, out, dt = sh([os.path.join(V, "lib", "build_harness.sh"), cmd], timeout=timeout)
+    if rc == 0 and race:   # second binary built with the Go race detector (work/bin/<cmd>race)
+        rc, out, dt = sh([os.path.join(V, "lib", "build_harness.sh"), cmd, "race"], timeout=timeout)
     return rc == 0, out[-4000:], dt
 
 
@@ -193,7 +195,7 @@ def main(REG):
 
     # 2..4 harness + model
     summary = {}
-    hb_ok, hb_log, _ = build_harness(cfg["harness"])
+    hb_ok, hb_log, _ = build_harness(cfg["harness"], race=bool(cfg.get("race")))
     mism, cerrs = [], []
     if not hb_ok:
         problems.append({"kind": "correspondence", "what": "harness does not build against the current tree", "log_tail": hb_log[-1500:]})
